@@ -866,6 +866,12 @@ func CombinatorProgs() []Prog {
 			})
 			return rapid.Custom(func(t *rapid.T) int { return inner.Draw(t, "inner") })
 		}, evenOnly),
+		// Make for maps whose key type has very few values: once they are used up every further entry is a
+		// duplicate, which must end in a forced stop (a smaller valid map), never in an endless search for a new key
+		one("Make[map[bool]int8]", "comb rej", rapid.Make[map[bool]int8], func(m map[bool]int8) string { return lenIn(len(m), 0, 2) }),
+		one("Make[map[struct{}]string]", "comb rej", rapid.Make[map[struct{}]string], func(m map[struct{}]string) string { return lenIn(len(m), 0, 1) }),
+		one("Make[struct{M map[[0]int]uint8}]", "comb rej", rapid.Make[struct{ M map[[0]int]uint8 }], func(v struct{ M map[[0]int]uint8 }) string { return lenIn(len(v.M), 0, 1) }),
+		one("Make[map[nBool][]bool]", "comb rej", rapid.Make[map[nBool][]bool], func(m map[nBool][]bool) string { return lenIn(len(m), 0, 2) }),
 		// Make for named (defined) types of every kind, at top level and nested: the value has the requested type
 		one("Make[nPtr]", "comb", rapid.Make[nPtr], nil),
 		one("Make[nPtrPtr]", "comb", rapid.Make[nPtrPtr], nil),
